@@ -246,6 +246,19 @@ Proof.
   apply possible_uniform, in_seq in Hp. lia.
 Qed.
 
+(* the choice reports the number of members it was built from: its support is exactly the index range of the collection
+   (every member can be chosen, nothing else can), its size is the collection's length, and it is a distribution *)
+Theorem one_of_support A (l : list A) d : one_of l = Some d ->
+  (forall i, possible d i <-> (i < length l)%nat) /\ length d = length l /\ mass d == 1.
+Proof.
+  destruct l as [|x l]; [discriminate|]. intros H. unfold one_of in H.
+  assert (E : d = uniform (seq 0 (length (x :: l)))) by congruence. rewrite E. repeat split.
+  - intros Hp. apply possible_uniform, in_seq in Hp. lia.
+  - intros Hi. apply possible_uniform, in_seq. lia.
+  - unfold uniform. now rewrite map_length, seq_length.
+  - apply mass_uniform. cbn [length seq]. discriminate.
+Qed.
+
 (* residue classes of a uniform index *)
 Definition class_count (n m r : nat) : nat := (n + m - 1 - r) / m.
 
